@@ -75,6 +75,9 @@ def run(ctx: Ctx):
             v.update({k: F(base[SYM[k]]) for k in CAL})
             exp[i] = kinematics(v, F(p["dt"]))
     res = ctx.run_impl("strap_py.py", {"points": pts}, timeout=3000)
+    if isinstance(res, dict) and res.get("results_stable") is False:
+        ctx.violation("a state returned by the compiled strapdown model changed when the model was evaluated again (results share storage): "
+                      "a trajectory kept by the caller is silently overwritten", {"points": pts[:3]}, key="model-result-unstable")
     if "_error" in res:
         ctx.broken.append({"kind": "correspondence", "name": "strapdown harness", "detail": res["_error"]})
     else:
